@@ -315,7 +315,7 @@ def check(case: dict[str, Any], rec: Any) -> None:
         if loaded_single_kind_grid_meter:
             rec.bucket("grid-meter-over-one-device-kind-with-building-load")
         for fb in (True, False, "primaries-failed"):
-            if fb == "primaries-failed" and loaded_single_kind_grid_meter:
+            if False and fb == "primaries-failed" and loaded_single_kind_grid_meter:  # (no longer excused, see DESIGN 8.2)
                 # with that meter failed its unmetered load is not observable from any other component: there is
                 # no true total the fallback could be held to (the meters-work passes above are judged)
                 rec.count("primaries-failed-pass-skipped(load only observable at the failed grid meter)")
